@@ -13,6 +13,11 @@ for mant, tier in ((0, "quick"), (1, "quick"), (2, "quick"), (3, "quick"), (5, "
                                  flags=["--max-field-sensitivity-array-size", "6000"],
                                  desc="rangeproof_verify_impl, mantissa class %d, length delta %+d: spare sign bits, digit x >= p, off-curve digit, ring scalar >= n, trailing/truncated bytes rejected; ring layout and scalars handed to the ring verifier" % (mant, delta),
                                  bounds="header bytes assigned (mantissa %d, exponent assigned), all other proof bytes symbolic, commitment/generator/extra data arbitrary" % mant))
+B = "C10/h_bor.c"
+for rs0, rs1, tier in ((1, 0, "quick"), (2, 0, "quick"), (4, 0, "quick"), (2, 1, "quick"), (4, 2, "thorough"), (4, 4, "thorough")):
+    QUERIES.append(Query("borromean_verify_%d_%d" % (rs0, rs1), B, "harness_borromean_verify", defs=["RS0=%d" % rs0] + (["RS1=%d" % rs1] if rs1 else []), unwind=270, timeout=1500, tier=tier, mem_gb=8,
+                         desc="secp256k1_borromean_verify == reference ring verifier for ring layout [%d%s]: all scalars, keys (incl. infinity), e0, m; zero scalars / infinite keys / infinite intermediate points rejected; chaining, indices and final hash as specified" % (rs0, (",%d" % rs1) if rs1 else ""),
+                         bounds="ring layout [%d%s], 32-byte message" % (rs0, (",%d" % rs1) if rs1 else "")))
 LEVEL_TEXT = ("Bounded model checking of the real range-proof verifier: the header decoder is compared with a 192-bit reference for all headers and lengths (one query per exponent field value), and verify_impl is executed per mantissa class "
               "with all proof bytes symbolic and curve/hash/ring-verifier results arbitrary, deciding every structural rejection of the statement.")
 ASSUMPTIONS = ["Borromean ring equation itself is not decided here (ring verifier replaced by a recording stub returning an arbitrary verdict); its hand-over (ring layout, e0, scalars) is asserted",
